@@ -2,7 +2,7 @@
 from .lib import *
 
 RULE = ("generated well-formed response and request heads (methods incl. extension tokens, targets, versions, statuses 100..999, "
-        "0..N+2 fields for limits N in {0,1,4,128}) followed by arbitrary bytes; parser::try_parse_response::<N>, "
+        "0..N+2 fields for limits N in {0,1,4,128}; a sixth of the response heads are 3xx with an early Location field) followed by arbitrary bytes; parser::try_parse_response::<N>, "
         "try_parse_partial_response::<N>, try_parse_request::<N> on every prefix length (heads up to 400 bytes; larger heads: "
         "prefixes near line ends + random) and on head ++ rest. non-trivial = the complete head was parsed (or rejected for the "
         "limit) and at least one strict prefix was offered; distinct = distinct (head, N)")
@@ -26,7 +26,7 @@ def cuts_for(n, line_ends, rng):
     return sorted(s)
 
 
-def gen_one(rng, kind=None, limit=None):
+def gen_one(rng, kind=None, limit=None, redirect=False):
     limit = limit if limit is not None else rng.choice([0, 1, 4, 4, 128])
     kind = kind or rng.choice(["response", "response", "request"])
     _stats["limits"][str(limit)] = _stats["limits"].get(str(limit), 0) + 1
@@ -35,7 +35,13 @@ def gen_one(rng, kind=None, limit=None):
         nfields = rng.choice([0, 5, 127, 128, 129, 130])
     else:
         nfields = rng.randrange(0, limit + 3)
-    if kind == "response":
+    if kind == "response" and redirect:
+        # a 3xx head whose Location field comes early: every cut inside the Location line is offered (the partial parser must
+        # not report a field it has seen only part of)
+        nfields = min(nfields, max(0, limit - 1)) if limit > 0 else 0
+        loc = [(rng.choice([b"Location", b"location"]), rng.choice([b"http://b.test/next/page?x=1", b"/n", b"../up"]))] if limit > 0 else []
+        h = gen_response_head(rng, nfields, status=rng.choice([300, 301, 302, 303, 307, 308]), extra_fields=loc)
+    elif kind == "response":
         h = gen_response_head(rng, nfields, status=rng.choice([100, 200, 302, 404, 999, rng.randrange(100, 1000)]))
     else:
         h = gen_request_head(rng, nfields)
@@ -69,7 +75,7 @@ def gen_one(rng, kind=None, limit=None):
 
 def generate(rng, tier, mult):
     count = (260 if tier == "quick" else 4000) * mult
-    return [gen_one(rng) for _ in range(count)]
+    return [gen_one(rng) for _ in range(count)] + [gen_one(rng, kind="response", redirect=True) for _ in range(count // 6)]
 
 
 def stats():
